@@ -346,6 +346,12 @@ def d8(repo, res):
     lens = {t.id for s_ in ast.walk(fn) if isinstance(s_, ast.Assign) and "shape[0]" in ast.unparse(s_.value) or (isinstance(s_, ast.Assign) and ast.unparse(s_.value).startswith("len("))
             for t in s_.targets if isinstance(t, ast.Name)}
     res.require(lens, "anchor vanished: path length variable in get_rot_pos_from_path")
+    # names computed from the length by +/- a constant (`last = path_len - 1`) stand for it as well
+    for _ in range(3):
+        for s_ in ast.walk(fn):
+            if isinstance(s_, ast.Assign) and len(s_.targets) == 1 and isinstance(s_.targets[0], ast.Name) and isinstance(s_.value, ast.BinOp) \
+                    and isinstance(s_.value.op, (ast.Add, ast.Sub)) and isinstance(s_.value.left, ast.Name) and s_.value.left.id in lens and isinstance(s_.value.right, ast.Constant):
+                lens.add(s_.targets[0].id)
     mods = [b for b in ast.walk(fn) if (isinstance(b, ast.BinOp) and isinstance(b.op, ast.Mod) and any(isinstance(x, ast.Name) and x.id in lens for x in ast.walk(b.right)))
             or (isinstance(b, ast.Call) and getattr(b.func, "attr", "") in ("mod", "remainder", "fmod") and any(isinstance(x, ast.Name) and x.id in lens for x in ast.walk(b)))]
     clamps = [s_ for s_ in ast.walk(fn) if (isinstance(s_, ast.Assign) and isinstance(s_.targets[0], ast.Subscript) and isinstance(s_.targets[0].slice, ast.Compare)
